@@ -126,6 +126,9 @@ func c13NodeProperty(t *rapid.T) {
 	x := genC13Node(t, "x", text)
 	y := genC13Node(t, "y", text)
 
+	if rapid.IntRange(0, 3).Draw(t, "sharePtr") == 0 && sharePersonPointers(x.Suppliers, x.Originators) {
+		hx.Class("person_pointer_reachable_twice")
+	}
 	// reflexive
 	if eq, _ := nodeEq(x, x); !eq {
 		t.Fatalf("node not equal to itself: %s", hx.RefKey(x, true))
